@@ -6,6 +6,8 @@
 //   (bool n|t|f)   (coll lo hi)   (notundef T) (sensitive T) (iterable T) (iterator T)
 //   (strs lo hi)  types.NewStringType(Integer[lo,hi], "")      (strv xHEX)  String['v'] (v not empty)
 //   (rx xHEX)  Regexp[/p/] ("" = the default)      (pat xHEX*)  Pattern      (tref xHEX)  TypeReference
+//   semver | (semver xORIG R+)  SemVer[range] (the operands of a SemVerRange value)
+//   (hash K V lo hi)   (like T xNAV)   callable | (callable T+)  Callable[T1..Tn] = NewCallableType(Tuple[T1..Tn], nil, nil)
 package c07
 
 import (
@@ -32,6 +34,7 @@ var nullary = map[string]func() px.Type{
 	"richdata":    func() px.Type { return types.DefaultRichDataType() },
 	"semverrange": func() px.Type { return types.DefaultSemVerRangeType() },
 	"semver":      func() px.Type { return types.DefaultSemVerType() },
+	"callable":    func() px.Type { return types.DefaultCallableType() },
 }
 
 func kindTypeOf(e sx.Sexp) (px.Type, bool) {
@@ -77,6 +80,22 @@ func kindTypeOf(e sx.Sexp) (px.Type, bool) {
 		return types.NewTypeReferenceType(a[0].MustStr()), true
 	case "semver": // (semver xORIG R+): the operands of a SemVerRange value (kinds.go rangeOf)
 		return types.NewSemVerType(rangeOf(a)), true
+	case "hash":
+		return types.NewHashType(typeOf(a[0]), typeOf(a[1]), sizeOf(a[2], a[3])), true
+	case "like":
+		return types.NewLikeType(typeOf(a[0]), a[1].MustStr()), true
+	case "runtime": // (runtime xRT xNAME n|xPATTERN); the runtime `go` with a name is rejected by the constructor
+		var pat *types.RegexpType
+		if a[2].IsList || a[2].Atom != "n" {
+			pat = types.NewRegexpType(a[2].MustStr())
+		}
+		return types.NewRuntimeType(a[0].MustStr(), a[1].MustStr(), pat), true
+	case "callable":
+		ts := make([]px.Type, 0, len(a))
+		for _, t := range a {
+			ts = append(ts, typeOf(t))
+		}
+		return types.NewCallableType(types.NewTupleType(ts, nil), nil, nil), true
 	}
 	return nil, false
 }
@@ -143,6 +162,41 @@ func kindTypeStr(t px.Type) (string, bool) {
 		return "(pat" + strings.Join(xs, "") + ")", true
 	case *types.TypeReferenceType:
 		return "(tref " + sx.Str(t.TypeString()).Atom + ")", true
+	case *types.HashType:
+		sz := t.Size()
+		return fmt.Sprintf("(hash %s %s %d %d)", typeStr(t.KeyType()), typeStr(t.ValueType()), sz.Min(), sz.Max()), true
+	case *types.RuntimeType: // read back from the parameters: [runtime, name unless empty, pattern if any] (none for the default)
+		rts, name, pat := "", "", "n"
+		ps := t.Parameters()
+		if len(ps) > 0 {
+			rts = ps[0].String()
+			if r, ok := ps[len(ps)-1].(*types.RegexpType); ok {
+				pat = sx.Str(r.PatternString()).Atom
+			}
+			if len(ps) > 1 {
+				if s, ok := ps[1].(px.StringValue); ok {
+					name = s.String()
+				}
+			}
+		}
+		return "(runtime " + sx.Str(rts).Atom + " " + sx.Str(name).Atom + " " + pat + ")", true
+	case *types.LikeType:
+		base, _ := t.Get("base_type")
+		nav, _ := t.Get("navigation")
+		return "(like " + typeStr(base.(px.Type)) + " " + sx.Str(nav.String()).Atom + ")", true
+	case *types.CallableType:
+		if t.ParametersType() == nil {
+			return "callable", true
+		}
+		pt, ok := t.ParametersType().(*types.TupleType)
+		if !ok || pt == nil {
+			return "callable", true
+		}
+		xs := []string{}
+		for _, m := range pt.Types() {
+			xs = append(xs, " "+typeStr(m))
+		}
+		return "(callable" + strings.Join(xs, "") + ")", true
 	case px.StringType:
 		if v := t.Value(); v != nil {
 			return "(strv " + sx.Str(*v).Atom + ")", true
@@ -152,6 +206,34 @@ func kindTypeStr(t px.Type) (string, bool) {
 		}
 	}
 	return "", false
+}
+
+// callableNodes collects the Callable type expressions of the trees
+func callableNodes(e sx.Sexp, out *[]string) {
+	if e.Tag() == "callable" || (!e.IsList && e.Atom == "callable") {
+		*out = append(*out, e.String())
+		return
+	}
+	for _, k := range e.List {
+		callableNodes(k, out)
+	}
+}
+
+// callablePair: among the operands there are two DIFFERENT Callable types (CallableType.Equals answers true for any two, their
+// keys differ): known finding C07-callable-all-equal
+func callablePair(es ...sx.Sexp) bool {
+	var ns []string
+	for _, e := range es {
+		callableNodes(e, &ns)
+	}
+	for i := range ns {
+		for j := i + 1; j < len(ns); j++ {
+			if ns[i] != ns[j] {
+				return true
+			}
+		}
+	}
+	return false
 }
 
 // ---- generators ---------------------------------------------------------------------------------------------------
@@ -166,6 +248,12 @@ var kindTypeLits = []string{
 	"(strv x61)", "(strv x62)", "(strv x6162)", "(strv x537472696e67)",
 	"(rx x)", "(rx x61)", "(rx x62)", "(rx x617c62)", "(pat)", "(pat x61)", "(pat x62)", "(pat x61 x62)", "(pat x62 x61)", "(pat x61 x61)", "(pat x61 x61 x62)", "(pat x61 x62 x62)", "(pat x6162)",
 	"(arr unit 0 0)", "(arr unit 0 1)", "(arr any 0 0)", "(arr unit 0 " + maxS + ")", "(tup (unit))",
+	"(hash any any 0 " + maxS + ")", "(hash any any 0 0)", "(hash unit unit 0 0)", "(hash unit unit 0 1)", "(hash str any 0 " + maxS + ")", "(hash any str 0 " + maxS + ")",
+	"(hash str (int 1 2) 0 " + maxS + ")", "(hash (int 1 2) str 0 " + maxS + ")", "(hash str (int 1 2) 1 2)", "(hash str (int 1 2) 1 " + maxS + ")", "(hash any unit 0 0)", "(hash (var str undef) str 0 3)", "(hash (var undef str) str 0 3)",
+	"(runtime x x n)", "(runtime x x78 n)", "(runtime x x79 n)", "(runtime x72756279 x n)", "(runtime x72756279 x78 n)", "(runtime x72756279 x79 n)", "(runtime x72756279 x78 x79)",
+	"(runtime x72756279 x78 x)", "(runtime x72756279 x x79)", "(runtime x72756279 x x78)", "(runtime x x x79)", "(runtime x6a617661 x78 n)", "(runtime x676f x n)",
+	"(like any x)", "(like str x)", "(like str x61)", "(like str x62)", "(like any x61)", "(like (int 1 2) x61)",
+	"callable", "(callable str)", "(callable (int 1 2))", "(callable str (int 1 2))", "(callable unit str)", "(callable str unit)",
 	"(tref x466f6f)", "(tref x426172)", "(tref x556e7265736f6c7665645265666572656e6365)", "(tref x)",
 	"semver", "(semver x312e78 (se (ge 1 0 0 x x) (lt 2 0 0 x x)))", "(semver x (se (ge 1 0 0 x x) (lt 2 0 0 x x)))", "(semver x3e3d312e302e30203c322e302e30 (se (ge 1 0 0 x x) (lt 2 0 0 x x)))",
 	"(semver x322e78 (se (ge 2 0 0 x x) (lt 3 0 0 x x)))", "(semver x312e322e33 (eq 1 2 3 x x))", "(semver x (eq 1 2 3 x x))", "(semver x312e78207c7c20332e78 (se (ge 1 0 0 x x) (lt 2 0 0 x x)) (se (ge 3 0 0 x x) (lt 4 0 0 x x)))",
@@ -203,7 +291,28 @@ func randKindType(r *rand.Rand, depth int) string {
 		}
 		return strconv.FormatInt(lo, 10) + " " + hi
 	}
-	switch r.Intn(13) {
+	switch r.Intn(17) {
+	case 16:
+		rt := []string{"", "ruby", "java"}[r.Intn(3)]
+		pat := "n"
+		if r.Intn(3) == 0 {
+			pat = sx.Str(rxSrcs[r.Intn(len(rxSrcs))]).Atom
+		}
+		return "(runtime " + sx.Str(rt).Atom + " " + sx.Str([]string{"", "x", "y"}[r.Intn(3)]).Atom + " " + pat + ")"
+	case 13:
+		return "(hash " + sub() + " " + sub() + " " + size() + ")"
+	case 14:
+		return "(like " + sub() + " " + sx.Str([]string{"", "a", "b", "a.b"}[r.Intn(4)]).Atom + ")"
+	case 15:
+		n := r.Intn(3)
+		if n == 0 {
+			return "callable"
+		}
+		s := "(callable"
+		for i := 0; i < n; i++ {
+			s += " " + sub()
+		}
+		return s + ")"
 	case 12:
 		rv, _ := rangeVals()
 		v := rv[r.Intn(len(rv))]
@@ -314,6 +423,48 @@ func mutKindType(r *rand.Rand, t sx.Sexp) (sx.Sexp, bool) {
 		return mk("(pat x61)"), true
 	case "tref":
 		return sx.T("tref", sx.Str(a[0].MustStr()+"x")), true
+	case "hash":
+		xs := append([]sx.Sexp{}, a...)
+		switch r.Intn(5) {
+		case 0:
+			xs[0] = mutType(r, a[0])
+		case 1:
+			xs[1] = mutType(r, a[1])
+		case 2:
+			xs[0], xs[1] = a[1], a[0]
+		case 3:
+			xs[3] = sx.A(maxS)
+		default:
+			return sx.T("arr", a[1], a[2], a[3]), true
+		}
+		return sx.T("hash", xs...), true
+	case "like":
+		if r.Intn(2) == 0 {
+			return sx.T("like", mutType(r, a[0]), a[1]), true
+		}
+		return sx.T("like", a[0], sx.Str(a[1].MustStr()+"x")), true
+	case "runtime":
+		xs := append([]sx.Sexp{}, a...)
+		switch r.Intn(4) {
+		case 0:
+			xs[0] = sx.Str([]string{"", "ruby", "java"}[r.Intn(3)])
+		case 1:
+			xs[1] = sx.Str(a[1].MustStr() + "x")
+		case 2:
+			if a[2].IsList || a[2].Atom != "n" {
+				xs[2] = sx.A("n")
+			} else {
+				xs[2] = sx.Str("y")
+			}
+		default:
+			xs[1] = sx.Str("")
+		}
+		return sx.T("runtime", xs...), true
+	case "callable":
+		if r.Intn(2) == 0 {
+			return sx.T("tup", sx.L(a...)), true
+		}
+		return sx.T("callable", append(append([]sx.Sexp{}, a...), mk("str"))...), true
 	case "semver":
 		rv, _ := rangeVals()
 		if r.Intn(2) == 0 { // another spelling of the same ranges (Equal, one key)
